@@ -8,11 +8,22 @@
 (***************************************************************************)
 EXTENDS D42ValueUniverse, D42TraceBase
 
+RECURSIVE PlainButInfinite(_)
+PlainButInfinite(v) ==
+  CASE v.k = "float" -> v.sp \in {"fin", "inf", "-inf"}
+    [] v.k = "list" -> \A i \in DOMAIN v.items : PlainButInfinite(v.items[i])
+    [] v.k = "dict" -> \A i \in DOMAIN v.pairs : PlainButInfinite(v.pairs[i].key) /\ PlainButInfinite(v.pairs[i].val)
+    [] OTHER -> IsPlain(v)
+
 Verdict(e) ==
   IF HasForeign(e.v)
   THEN IF e.exc = "ValueError" THEN "OK"
        ELSE IF e.exc = "" THEN "FAIL:non_plain_value_converted:"
        ELSE "FAIL:non_plain_value_wrong_exception:"
+  \* an infinite float is a float: it must be converted (what the result accepts is left to C10's
+  \* and C02's models of non-finite values)
+  ELSE IF ~IsPlain(e.v) /\ PlainButInfinite(e.v)
+       THEN IF e.exc # "" THEN "FAIL:plain_value_refused:" ELSE "SKIP:non_finite_float"
   ELSE IF ~IsPlain(e.v) THEN "SKIP:instance_of_a_subclass"
   ELSE IF e.exc # "" THEN "FAIL:plain_value_refused:"
   ELSE IF ~e.acc THEN "FAIL:result_rejects_its_own_value:"
